@@ -661,14 +661,51 @@ theorem spec_bare_clause (g : Nat → Node → Stmt) (f'' sc : Nat) (c st : Node
   rcases Spec.exec (clauseBody g sc c st) s with ⟨o, s2⟩
   cases o <;> rfl
 
+/-- **spec_binding_clause** (reference-semantics side): `except e { … }` / `except as e { … }` handles every error: in
+    the clause's scope the error object is bound to the variable (a failing assignment is dropped), then the block
+    runs; the statement continues normally (value null) unless binding or block end otherwise -/
+theorem spec_binding_clause (g : Nat → Node → Stmt) (f'' sc : Nat) (c c0 st : Node) (var : List Nat) (rest : Clauses)
+    (e : Sig) (s : St) (ho : clauseShape c = .other) (hb : bindingShape c = .bind c0 st var) :
+    Spec.handle (clauseOfNode g f'' sc c rest) e s =
+      (match Spec.exec (bindBody g sc c st var e) s with
+       | (.normal _, s2) => (.normal Val.null, s2)
+       | (o, s2) => (o, s2)) := by
+  unfold clauseOfNode
+  rw [ho]; simp only []; rw [hb]
+  simp only [Spec.handle, liftM, run_pure, toOutS, toOut_ok]
+  rcases Spec.exec (bindBody g sc c st var e) s with ⟨o, s2⟩
+  cases o <;> rfl
+
+/-- **spec_first_listed_clause_as**: `except "T0", … as v { … }` with plain literals handles `e` exactly when the
+    type of `e` is listed; it then binds the error object to `v` and runs the block; otherwise the error goes on,
+    unchanged and without effect, to the clauses after it -/
+theorem spec_first_listed_clause_as (g : Nat → Node → Stmt) (f sc : Nat) (c s0 a av st : Node) (ss : List Node)
+    (t : Ecal.Lex.Tok) (rest : Clauses) (e : Sig) (s : St)
+    (ho : clauseShape c = .other) (hb : bindingShape c = .typedAs s0 ss a av t st)
+    (hv : ∀ x ∈ s0 :: ss, PlainStr x (textOf x)) :
+    Spec.handle (clauseOfNode g (f+2) sc c rest) e s =
+      if ((s0 :: ss).map textOf).any (fun b => bytesToString b == errType e) then
+        (match Spec.exec (bindBody g sc c st t.val e) s with
+         | (.normal _, s2) => (.normal Val.null, s2)
+         | (o, s2) => (o, s2))
+      else Spec.handle rest e s := by
+  unfold clauseOfNode
+  rw [ho]; simp only []; rw [hb]
+  simp only [Spec.handle, liftM, map_eval_plain f sc _ hv, typedMatch_values, pure_bind, run_pure, toOutS, toOut_ok]
+  by_cases hl : ((s0 :: ss).map textOf).any (fun b => bytesToString b == errType e) = true
+  · simp only [hl, if_true]
+    rcases Spec.exec (bindBody g sc c st t.val e) s with ⟨o, s2⟩
+    cases o <;> rfl
+  · simp only [hl, Bool.false_eq_true, if_false]
+
 /-- **spec_refinement_partial** — the PROVED part of "eval refines the reference semantics": `eval_refines_spec`
     under the name that says it is partial. FULL statement not proved: the same with (1) calls inside a program
     read as `Stmt.call` BY `stmtOf` (a call node is still a leaf of `stmtOf`, because the function it calls is a value
     of the state, not of the tree; the connection is made at the node instead: `eval_user_call`,
     `eval_call_refines_spec`, `eval_call_never_ret` — hypotheses: the variable holds a declared function, arguments
-    and frame were built), (2) the clause shapes that BIND the error (`except e`, `except as e`, `"T" as e`,
-    `"T" e`: still `Clauses.opaque`; bare and typed clauses ARE `Clauses.clause` now — `spec_first_listed_clause`,
-    `spec_bare_clause`), (3) `for … in` loops (leaves). With
+    and frame were built), (2) `for … in` loops (leaves). ALL except-clause shapes the parser produces are
+    `Clauses.clause` now (bare, typed, `e`, `as e`, `"T" as e`, `"T" e`: `spec_bare_clause`, `spec_first_listed_clause`,
+    `spec_binding_clause`, `spec_first_listed_clause_as`); only a clause of none of these shapes stays a whole handler. With
     `stmtOf := leaf ∘ eval` the statement would be `rfl`: its content is exactly the node kinds statements, if,
     condition loop and try (block, otherwise, finally, clause order, type test of bare / typed clauses). -/
 theorem spec_refinement_partial (f sc : Nat) (n : Node) (s : St) :
